@@ -317,6 +317,33 @@ def run(ctx):
     ctx.violation(f'facts:{v.inv or "rejected"}:{(v.state or "")[:80]}', f'relational facts violated: {v.inv} at event #{v.at} {v.event}; '
                   f'recorded {v.state}', replay={'events': ph[max(0, (v.at or 1) - 3):(v.at or 1) + 1]})
 
+  # ---------------- clients that agree on the feature names but not on the dtype (string widths, int then float): rows unaltered
+  nh = 0
+  for order in ([0, 1, 2], [2, 0, 1], [1, 2, 0], [0, 2, 1]):
+    for bs in (2, 3, 5, 7):
+      pieces = [{'id': np.array([1, 2], np.int32), 's': np.array([b'a', b'b'], dtype='S1'), 'v': np.array([1, 2], np.int32)},
+                {'id': np.array([3, 4, 5], np.int32), 's': np.array([b'ccc', b'dd', b'e'], dtype='S3'), 'v': np.array([0.5, 1.5, 2.5], np.float32)},
+                {'id': np.array([6], np.int32), 's': np.array([b'ffffff'], dtype='S6'), 'v': np.array([7], np.int64)}]
+      want = {1: (b'a', 1.0), 2: (b'b', 2.0), 3: (b'ccc', 0.5), 4: (b'dd', 1.5), 5: (b'e', 2.5), 6: (b'ffffff', 7.0)}
+      dss_h = [fedjax.ClientDataset(pieces[i]) for i in order]
+      nh += 1
+      ctx.case(key=('hetero', tuple(order), bs), nontrivial=True)
+      try:
+        seen_ids = []
+        for b in fedjax.padded_batch_client_datasets(dss_h, fedjax.PaddedBatchHParams(batch_size=bs)):
+          for r in range(len(b['id'])):
+            if b['__mask__'][r]:
+              i = int(b['id'][r])
+              seen_ids.append(i)
+              if bytes(b['s'][r]) != want[i][0] or float(b['v'][r]) != want[i][1]:
+                ctx.violation('replay:padded_multi:values', f'row of example {i} reads s={bytes(b["s"][r])!r} v={float(b["v"][r])}, the dataset has {want[i]} '
+                              f'(clients with dtypes S1/int32, S3/float32, S6/int64 listed in order {order}, batch size {bs})', replay={'order': order, 'bs': bs})
+        if seen_ids != [i for o in order for i in pieces[o]['id'].tolist()]:
+          ctx.violation('replay:padded_multi:values', f'ids {seen_ids} for clients in order {order}, batch size {bs}', replay={'order': order, 'bs': bs})
+      except Exception as ex:  # pylint: disable=broad-except
+        ctx.violation('replay:padded_multi:hetero-exception', f'{type(ex).__name__}: {str(ex)[:150]} for clients of different dtypes, order {order}, batch size {bs}', replay={'order': order, 'bs': bs})
+  ctx.trace_ok(nh)
+
   # ---------------- leg T (3): RepeatableIterator
   rtrs = []
   class Rotating:
